@@ -79,7 +79,7 @@ Section Arith.
       destruct (Nat.eq_dec (off + L) 0) as [Z|NZ].
       + rewrite Z, div_ceil_0 by exact Hseg.
         assert (off = 0) by lia. assert (st = 0) by (unfold st; replace off with 0 by lia; apply Nat.div_0_l; exact Hseg).
-        repeat split; try lia. destruct ua_off. lia.
+        repeat split; intros; try lia.
       + destruct (div_ceil_bounds (off + L) seg Hseg) as [C1 C2]; [lia|].
         set (c := div_ceil (off + L) seg) in *.
         assert (Hsc : st <= c).
@@ -88,24 +88,22 @@ Section Arith.
         assert (Hcn : c <= num').
         { destruct (Nat.le_gt_cases c num'); [assumption|exfalso].
           assert (num' * seg <= (c - 1) * seg) by (apply Nat.mul_le_mono_r; lia). lia. }
-        repeat split; try lia.
-        * intros Hc. assert (c * seg = st * seg) by (f_equal; exact Hc). lia.
-        * intros Hc. assert (c * seg = st * seg) by (f_equal; exact Hc). lia.
+        repeat split; intros; lia.
   Qed.
 
   Lemma ua_E : off + L <= E /\ E <= N' /\ (end1 < num' -> E = end1 * seg) /\ (end1 = num' -> E = N') /\
                (st < end1 -> (end1 - 1) * seg < E /\ E <= end1 * seg).
   Proof.
     destruct ua_off as [O1 O2]. destruct ua_num' as [B1 B2]. destruct ua_end1 as (E1 & E2 & E3 & E4).
-    unfold E. repeat split.
-    - destruct (Nat.eq_dec end1 st) as [H|H].
+    unfold E.
+    assert (G1 : off + L <= Nat.min (end1 * seg) N').
+    { destruct (Nat.eq_dec end1 st) as [H|H].
       + destruct (E3 H) as (H1 & H2 & H3). rewrite H. unfold N'. lia.
-      + destruct E4 as [_ E4]; [lia|]. unfold N'. lia.
-    - lia.
-    - intros H. assert (end1 * seg <= (num' - 1) * seg) by (apply Nat.mul_le_mono_r; lia). lia.
-    - intros H. rewrite H. lia.
-    - intros H. destruct (E4 H) as [F1 F2]. unfold N'. lia.
-    - lia.
+      + destruct E4 as [_ E4]; [lia|]. unfold N'. lia. }
+    split; [exact G1|]. split; [lia|]. split.
+    { intros H. assert (end1 * seg <= (num' - 1) * seg) by (apply Nat.mul_le_mono_r; lia). lia. }
+    split. { intros H. rewrite H. lia. }
+    intros H. destruct (E4 H) as [F1 F2]. unfold N'. lia.
   Qed.
 
   (* the end segment *)
@@ -151,7 +149,8 @@ Section Arith.
       { rewrite Hend. rewrite D1 at 1. rewrite Nat.add_0_r. apply div_ceil_mul. exact Hseg. }
       unfold E in Hm. rewrite H in Hm. lia. }
     assert (Hq : (off + L) / seg = end1 - 1).
-    { destruct (div_ceil_qr (off + L) seg ((off + L) / seg) ((off + L) mod seg)) as []; try lia. }
+    { pose proof (div_ceil_qr (off + L) seg ((off + L) / seg) ((off + L) mod seg) D1 ltac:(lia) ltac:(lia)) as Q.
+      rewrite <- Hend in Q. lia. }
     assert (Hes : es = end1 - 1).
     { unfold es, update_end_segment. replace (off + L <? n) with true by (symmetry; apply Nat.ltb_lt; exact Hlt).
       destruct (div_uniq (off + L - 1) seg (end1 - 1) ((off + L) mod seg - 1)) as [Q _]; [rewrite <- Hq; lia|lia|exact Q]. }
@@ -162,6 +161,9 @@ End Arith.
 
 (* ---- the in-place update ----------------------------------------------------------------- *)
 Lemma seg_size_mdmf maxseg k a b : seg_size_of false maxseg k a = seg_size_of false maxseg k b.
+Proof. reflexivity. Qed.
+
+Lemma tu_size_init d o sg a b : tu_size (tu_init d o sg a b) = o + length d.
 Proof. reflexivity. Qed.
 
 Lemma update_in_place_represents maxseg k f (old data : bytes) off :
@@ -175,7 +177,7 @@ Proof.
   assert (Hsegv : seg = seg_size_of false maxseg k n) by (destruct R as (_ & _ & Hs & _); exact Hs).
   assert (NZ : seg <> 0).
   { rewrite Hsegv. unfold seg_size_of. pose proof (next_multiple_pos maxseg k Hk Hm). lia. }
-  pose proof (ua_npos seg n off NZ Hst) as Hn.
+  pose proof (ua_npos seg n off 0 NZ Hoff Hst) as Hn.
   pose proof (represents_retr_num _ _ _ _ _ R Hk Hm' Hn) as Hrn. fold seg n in Hrn.
   assert (Hlen : mf_len f = n) by (destruct R as (_ & _ & _ & Hl & _); exact Hl).
   assert (Hkf : mf_k f = k) by (destruct R as (_ & Hk' & _); exact Hk').
@@ -188,32 +190,51 @@ Proof.
   set (fso := off mod seg).
   set (es := update_end_segment n seg off L).
   set (eoff := (fso + L) mod seg).
-  destruct (ua_off seg off NZ) as [O1 O2]. fold st fso in O1, O2.
+  destruct (ua_off seg n off 0 NZ Hoff Hst) as [O1 O2]. fold st fso in O1, O2.
   destruct (ua_end1 seg n off L NZ Hoff Hst) as (E1 & E2 & E3 & E4). fold st N' num' end1 fso in E1, E2, E3, E4.
   destruct (ua_E seg n off L NZ Hoff Hst) as (F1 & F2 & F3 & F4 & F5). fold st N' num' end1 E in F1, F2, F3, F4, F5.
-  destruct (ua_num' seg n off L NZ Hst) as [B1 B2]. fold N' num' in B1, B2.
-  pose proof (ua_es_lt seg n off L NZ Hst) as Hes. fold es in Hes.
-  pose proof (ua_st_lt_num' seg n off L NZ Hoff Hst) as Hsn. fold st num' in Hsn.
+  destruct (ua_num' seg n off L NZ Hoff Hst) as [B1 B2]. fold N' num' in B1, B2.
+  destruct (ua_num_old seg n off 0 NZ Hoff Hst) as [A1 A2].
+  pose proof (ua_es_lt seg n off L NZ Hoff Hst) as Hes. fold es in Hes.
+  pose proof (ua_st_lt_num' seg n off L NZ Hoff Hst) as Hsn. fold st N' num' in Hsn.
+  pose proof (ua_es seg n off L NZ Hoff Hst) as U. fold st N' num' end1 E fso es eoff in U.
+  set (new := splice old data off).
+  assert (Hnewlen : length new = N') by (unfold new, N'; rewrite splice_length by exact Hoff; reflexivity).
+  assert (Hdl : (if n <? off + L then off + L else n) = N').
+  { unfold N'. destruct (n <? off + L) eqn:Q; [apply Nat.ltb_lt in Q|apply Nat.ltb_ge in Q]; lia. }
+  assert (HN : n <= N' /\ off + L <= N') by (unfold N'; lia).
+  assert (Hcase : (n < off + L /\ end1 = num') \/ (off + L <= n /\ N' = n /\ num' = div_ceil n seg)).
+  { destruct (Nat.lt_ge_cases n (off + L)) as [Q|Q].
+    - left. split; [exact Q|]. unfold end1. replace (off + L =? N') with true; [reflexivity|].
+      symmetry. apply Nat.eqb_eq. unfold N'. lia.
+    - right. assert (N' = n) by (unfold N'; lia). repeat split; try assumption. unfold num'. rewrite H. reflexivity. }
+  set (p := setup_encoding_parameters false maxseg k N' (off + L) off).
+  assert (Hsz : seg_size_of false maxseg k N' = seg) by (rewrite Hsegv; reflexivity).
+  assert (Hpseg : e_seg p = seg) by (unfold p; rewrite sep_seg; exact Hsz).
+  assert (Hpnum : e_num p = num') by (unfold p; rewrite sep_num by (rewrite Hsz; exact NZ); rewrite Hsz; reflexivity).
+  assert (Hpst : e_start p = st) by (unfold p; rewrite sep_start by (rewrite Hsz; exact NZ); rewrite Hsz; reflexivity).
+  assert (Hptail : e_tail p = tail_of N' seg) by (unfold p; rewrite sep_tail by (first [rewrite Hsz; exact NZ | lia]); rewrite Hsz; reflexivity).
+  assert (Hpend : e_end1 p = end1).
+  { unfold end1. destruct (off + L =? N') eqn:Q.
+    - apply Nat.eqb_eq in Q. unfold p. rewrite Q. rewrite sep_end1_full. rewrite <- Q at 2. fold p. exact Hpnum.
+    - apply Nat.eqb_neq in Q. unfold p. rewrite sep_end1_part by (try rewrite Hsz; assumption). rewrite Hsz. reflexivity. }
+  assert (Htail' : tail_of N' seg = N' - (num' - 1) * seg) by (apply tail_of_eq; [exact NZ|lia]).
+  assert (Hnum_old : length (chunks seg old) = div_ceil n seg) by (apply chunks_length; exact NZ).
+  assert (Hnum_new : length (chunks seg new) = num') by (rewrite chunks_length by exact NZ; rewrite Hnewlen; reflexivity).
+  assert (Hnn : div_ceil n seg <= num').
+  { destruct (Nat.le_gt_cases (div_ceil n seg) num'); [assumption|exfalso].
+    assert (num' * seg <= (div_ceil n seg - 1) * seg) by (apply Nat.mul_le_mono_r; lia). lia. }
+  assert (Hnum'def : num' = div_ceil N' seg) by reflexivity.
+  (* from here on N', num', end1, E are plain numbers constrained by the facts above *)
+  clearbody N' num' end1 E.
   (* unfold the operation *)
   unfold update_in_place. rewrite Hlen. fold seg L.
   replace (off <=? n) with true by (symmetry; apply Nat.leb_le; exact Hoff). cbn [negb].
   fold st. rewrite Hrn.
   replace (st <? div_ceil n seg) with true by (symmetry; apply Nat.ltb_lt; exact Hst). cbn [negb].
   fold es.
-  unfold tu_size, tu_init at 1 2 3. cbn [tu_off tu_new]. fold L.
-  assert (Hdl : (if n <? off + L then off + L else n) = N').
-  { unfold N'. destruct (n <? off + L) eqn:Q; [apply Nat.ltb_lt in Q|apply Nat.ltb_ge in Q]; lia. }
-  rewrite Hdl, Hkf.
-  set (p := setup_encoding_parameters false maxseg k N' (off + L) off).
-  assert (Hsz : seg_size_of false maxseg k N' = seg) by (rewrite Hsegv; reflexivity).
-  assert (Hpseg : e_seg p = seg) by (unfold p; rewrite sep_seg; exact Hsz).
-  assert (Hpnum : e_num p = num') by (unfold p; rewrite sep_num by (rewrite Hsz; exact NZ); rewrite Hsz; reflexivity).
-  assert (Hpst : e_start p = st) by (unfold p; rewrite sep_start by (rewrite Hsz; exact NZ); rewrite Hsz; reflexivity).
-  assert (Hptail : e_tail p = tail_of N' seg) by (unfold p; rewrite sep_tail by (rewrite Hsz; try exact NZ; lia); rewrite Hsz; reflexivity).
-  assert (Hpend : e_end1 p = end1).
-  { unfold end1. destruct (off + L =? N') eqn:Q.
-    - apply Nat.eqb_eq in Q. unfold p. rewrite Q. rewrite sep_end1_full. rewrite <- Q at 2. fold p. exact Hpnum.
-    - apply Nat.eqb_neq in Q. unfold p. rewrite sep_end1_part by (try rewrite Hsz; assumption). rewrite Hsz. reflexivity. }
+  cbv zeta. rewrite !tu_size_init. fold L.
+  rewrite Hdl, Hkf. fold p.
   rewrite Hpend, Hpst, Hpseg.
   (* the decoded boundary segments *)
   assert (Hs : decoded_segment f st = slice (st * seg) (st * seg + seg) old).
@@ -223,8 +244,6 @@ Proof.
   rewrite Hs, He.
   set (s := slice (st * seg) (st * seg + seg) old).
   set (e := slice (es * seg) (es * seg + seg) old).
-  set (new := splice old data off).
-  assert (Hnewlen : length new = N') by (unfold new, N'; rewrite splice_length by exact Hoff; reflexivity).
   set (Rg := slice (st * seg) E new).
   (* the pushed segments are the segments of the region *)
   assert (Hpush : push_tu (end1 - st) st p (tu_init data off seg s e) = Some (chunks_n (end1 - st) seg Rg)).
@@ -242,28 +261,28 @@ Proof.
       - unfold e. rewrite skipn_slice, firstn_slice.
         destruct (Nat.eq_dec E (off + L)) as [Q|Q].
         + rewrite Q, Nat.sub_diag. rewrite !slice_nil by lia. reflexivity.
-        + destruct (ua_es seg n off L NZ Hoff Hst) as [U1 U2]; [fold st N' num' end1 E; lia|].
-          fold st N' num' end1 E fso es eoff in U1, U2.
-          rewrite U1. f_equal. lia. }
+        + destruct U as [U1 U2]; [lia|]. rewrite U1. f_equal. lia. }
     assert (Hrl : length Rg = E - st * seg).
     { unfold Rg. rewrite slice_length, Hnewlen. lia. }
     pose proof (push_tu_chunks data s e off seg (E - (off + L)) NZ Hfs p st (end1 - st) (E - (end1 - 1) * seg)) as PT.
     fold fso L in PT. rewrite Hreg in PT.
     specialize (PT Hpseg).
+    assert (M1 : end1 * seg = (end1 - 1) * seg + seg) by (apply mul_pred; lia).
+    assert (M2 : (end1 - st - 1) * seg = (end1 - 1) * seg - st * seg).
+    { replace (end1 - st - 1) with (end1 - 1 - st) by lia. apply Nat.mul_sub_distr_r. }
+    assert (M3 : st * seg <= (end1 - 1) * seg) by (apply Nat.mul_le_mono_r; lia).
     assert (Q1 : 0 < end1 - st) by lia.
-    assert (Q2 : 0 < E - (end1 - 1) * seg <= seg) by nia.
-    assert (Q3 : length Rg = (end1 - st - 1) * seg + (E - (end1 - 1) * seg)).
-    { rewrite Hrl. assert (st * seg <= (end1 - 1) * seg) by (apply Nat.mul_le_mono_r; lia). nia. }
-    assert (Q4 : (end1 - st - 1) * seg <= fso + L).
-    { assert (st * seg <= (end1 - 1) * seg) by (apply Nat.mul_le_mono_r; lia). nia. }
+    assert (Q2 : 0 < E - (end1 - 1) * seg <= seg) by lia.
+    assert (Q3 : length Rg = (end1 - st - 1) * seg + (E - (end1 - 1) * seg)) by (rewrite Hrl; lia).
+    assert (Q4 : (end1 - st - 1) * seg <= fso + L) by lia.
     assert (Q5 : forall j, j < end1 - st -> seg_read_size p (st + j) = if j + 1 =? end1 - st then E - (end1 - 1) * seg else seg).
     { intros j Hj. unfold seg_read_size. rewrite Hpnum, Hptail, Hpseg.
       destruct (j + 1 =? end1 - st) eqn:Q.
       - apply Nat.eqb_eq in Q.
         destruct (st + j + 1 =? num') eqn:Q'.
-        + apply Nat.eqb_eq in Q'. rewrite tail_of_eq by (try exact NZ; lia). fold num'.
+        + apply Nat.eqb_eq in Q'. rewrite Htail'.
           rewrite F4 by lia. f_equal. f_equal. lia.
-        + apply Nat.eqb_neq in Q'. rewrite F3 by lia. nia.
+        + apply Nat.eqb_neq in Q'. rewrite F3 by lia. lia.
       - apply Nat.eqb_neq in Q.
         destruct (st + j + 1 =? num') eqn:Q'; [apply Nat.eqb_eq in Q'; lia|reflexivity]. }
     specialize (PT Q1 Q2 Q3 Q4 Q5 (end1 - st) 0).
@@ -273,27 +292,17 @@ Proof.
   eexists. split; [reflexivity|].
   unfold represents. cbn [mf_sdmf mf_k mf_segsize mf_len mf_segs].
   fold new. rewrite Hnewlen.
-  repeat split; try reflexivity.
-  rewrite Hsegs. rewrite <- firstn_map, <- skipn_map, <- !map_app. f_equal.
+  split; [reflexivity|]. split; [reflexivity|]. split; [symmetry; exact Hsz|]. split; [reflexivity|].
+  rewrite Hsegs. rewrite firstn_map, skipn_map, <- !map_app. f_equal.
   (* the segment lists agree position by position *)
-  assert (Hnum_old : length (chunks seg old) = div_ceil n seg) by (apply chunks_length; exact NZ).
-  assert (Hcase : (n < off + L /\ end1 = num') \/ (off + L <= n /\ N' = n /\ num' = div_ceil n seg)).
-  { destruct (Nat.lt_ge_cases n (off + L)) as [Q|Q].
-    - left. split; [exact Q|]. unfold end1. replace (off + L =? N') with true; [reflexivity|].
-      symmetry. apply Nat.eqb_eq. unfold N'. lia.
-    - right. assert (N' = n) by (unfold N'; lia). repeat split; try assumption. unfold num'. rewrite H. reflexivity. }
-  assert (Hnn : div_ceil n seg <= num').
-  { destruct (ua_num_old seg n off NZ Hst) as [A1 A2].
-    destruct (Nat.le_gt_cases (div_ceil n seg) num'); [assumption|exfalso].
-    assert (num' * seg <= (div_ceil n seg - 1) * seg) by (apply Nat.mul_le_mono_r; lia). unfold N' in *. lia. }
+  clear Hpush Hs He Hpend Hpst Hpseg Hptail Hpnum Htail' Hdl U R Hsegs Hrn Hlen Hkf.
   apply nth_ext with (d := []) (d' := []).
-  - rewrite !app_length, firstn_length, skipn_length, chunks_n_length, Hnum_old.
-    rewrite chunks_length by exact NZ. rewrite Hnewlen. fold num'.
+  - rewrite !app_length, firstn_length, skipn_length, chunks_n_length, Hnum_old, Hnum_new.
     destruct Hcase as [[C1 C2]|(C1 & C2 & C3)]; lia.
   - intros i Hi.
     rewrite !app_length, firstn_length, skipn_length, chunks_n_length, Hnum_old in Hi.
     assert (Hi' : i < num') by (destruct Hcase as [[C1 C2]|(C1 & C2 & C3)]; lia).
-    rewrite (chunks_nth seg new i NZ) by (rewrite Hnewlen; exact Hi').
+    rewrite (chunks_nth seg new i NZ) by (rewrite Hnewlen, <- Hnum'def; exact Hi').
     destruct (Nat.lt_ge_cases i st) as [I1|I1].
     + (* before the rewritten segments *)
       rewrite app_nth1 by (rewrite firstn_length, Hnum_old; lia).
@@ -310,8 +319,9 @@ Proof.
         destruct (F5 ltac:(lia)) as [G3 G4].
         assert ((i + 1) * seg <= end1 * seg) by (apply Nat.mul_le_mono_r; lia).
         assert (st * seg <= i * seg) by (apply Nat.mul_le_mono_r; lia).
-        replace (st * seg + (i - st) * seg) with (i * seg) by nia.
-        replace (st * seg + ((i - st) * seg + seg)) with (i * seg + seg) by nia.
+        assert (M4 : (i - st) * seg = i * seg - st * seg) by apply Nat.mul_sub_distr_r.
+        replace (st * seg + (i - st) * seg) with (i * seg) by lia.
+        replace (st * seg + ((i - st) * seg + seg)) with (i * seg + seg) by lia.
         destruct (Nat.eq_dec end1 num') as [Q|Q].
         -- rewrite (F4 Q). rewrite <- Hnewlen. rewrite <- (slice_clip _ (i * seg + seg)). f_equal.
         -- rewrite (F3 ltac:(lia)). f_equal. lia.
